@@ -28,7 +28,9 @@ def var_jobs():
             vals = {lv: "%s-val" % lv for lv in sub}
             if "set" in vals:
                 vals["set"] = setval          # a value may itself contain '=' or be empty
-            task = {"command": ['echo "v={{.v}}" >> "$PROJ/out"']}
+            # the same resolution everywhere a template is rendered: condition, before hook, command, after hook
+            task = {"command": ['echo "v={{.v}}" >> "$PROJ/out"'], "before": ['echo "bv={{.v}}" >> "$PROJ/out"'], "after": ['echo "av={{.v}}" >> "$PROJ/out"'],
+                    "condition": 'echo "cv={{.v}}" >> "$PROJ/out"'}
             if "task" in vals:
                 task["variables"] = {"v": vals["task"]}
             stage = {"task": "t"}
@@ -166,7 +168,7 @@ class Intern:
 
 def run(ctx):
     res = vlib.Result()
-    res.rule = ("variables: every non-empty subset of {global config, project config, --set, task, stage} defining one name, direct and as stage; "
+    res.rule = ("variables: every non-empty subset of {global config, project config, --set, task, stage} defining one name, direct and as stage, read in the condition, a before hook, a command and an after hook; "
                 "built-ins printed; argv: target(s), `--`, then every vector of <=2 words and a sample (all in thorough: 9331) of vectors of <=5 words over "
                 "{a, a target name, k=v, -x, --raw, --}, through `taskctl` and `taskctl run`; an undefined variable at every command position of "
                 "<=3-command tasks with/without allow_failure; --set texts (1..3 flags over {a b = , space x :}: values containing '=', empty values, texts without '=', empty names, repeated names).  distinct = distinct case; non-trivial = >=2 levels / >=1 argument word / any undefined case.")
@@ -198,8 +200,8 @@ def run(ctx):
             def am(lv):
                 return "[(1, %d)]" % I(v[lv]) if lv in v else "[]"
             V = "(mkVarL [(2, 1); (3, 1)] %s %s %s [(4, 1); (5, 1)] %s %s)" % (am("global"), am("cfg"), am("set"), am("task"), am("stage"))
-            val = lines[0].split("=", 1)[1] if lines and lines[0].startswith("v=") else None
-            items.append("(%d%%N, vars_ok %s 1 %s)" % (k, V, "None" if val is None else "(Some %d)" % I(val)))
+            d = dict(l.split("=", 1) for l in lines if "=" in l)
+            items.append("(%d%%N, %s)" % (k, " && ".join("vars_ok %s 1 %s" % (V, "None" if d.get(key) is None else "(Some %d)" % I(d[key])) for key in ("cv", "bv", "v", "av"))))
             if len(v) >= 2:
                 res.nontrivial_keys.add(json.dumps([v, j["mode"]], sort_keys=True))
         elif j["kind"] == "shared":
